@@ -29,6 +29,17 @@ CLAIMS = {
     ),
 }
 
+CLAIMS["C12"] = dict(
+    text="Decides the absence claim directly on the code that produces every client: (1) all import statements (top-level, nested, "
+    "TYPE_CHECKING, try-guarded) of the 8 runtime modules that are copied into each core are stdlib/httpx/cattrs/relative and their "
+    "relative targets are shipped too; (2) the copy in CoreEmitter.emit is verbatim (single `f.read()` definition reaches the write); "
+    "(3) all ~165 import-registration call sites and all ~50 import statements embedded in code templates name only stdlib, httpx, "
+    "cattrs, the emitted package or the designated core package. Because the payload is copied byte-for-byte, scanning it in /repo "
+    "scans it in every client; a stray generator import in any rarely-used template is reported with its site.",
+    technique="import allow-list over the runtime payload + def-use check of the verbatim copy + classification of every import-registration argument and template-embedded import",
+    ref="3/C12",
+)
+
 NOT_APPLICABLE = {}
 
 PENDING = "check not built yet (framework under construction; DESIGN.md lists the planned rules)"
